@@ -265,3 +265,38 @@ def call_sites(project: Project, target: str) -> List[tuple]:
                 if isinstance(n, ast.Call) and sc.resolve_call(n) == target:
                     out.append((fi, m, n))
     return out
+
+
+
+def local_aliases(fn: ast.AST) -> Dict[str, ast.AST]:
+    """Locals bound exactly once to a plain attribute chain (`text = self.text`): name -> the chain they abbreviate."""
+    names = [n for n in ast.walk(fn) if isinstance(n, ast.Name)]
+    a = fn.args
+    params = {x.arg for x in a.posonlyargs + a.args + a.kwonlyargs}
+    out: Dict[str, ast.AST] = {}
+    for st in ast.walk(fn):
+        if isinstance(st, ast.Assign) and len(st.targets) == 1 and isinstance(st.targets[0], ast.Name) and isinstance(st.value, ast.Attribute):
+            e = st.value
+            while isinstance(e, ast.Attribute):
+                e = e.value
+            if not isinstance(e, ast.Name):
+                continue
+            name = st.targets[0].id
+            if name in params or sum(1 for n in names if n.id == name and isinstance(n.ctx, (ast.Store, ast.Del))) != 1:
+                continue
+            if e.id not in params and sum(1 for n in names if n.id == e.id and isinstance(n.ctx, (ast.Store, ast.Del))) > 1:
+                continue
+            out[name] = st.value
+    return out
+
+
+def unalias(e: ast.AST, aliases: Dict[str, ast.AST]) -> ast.AST:
+    """`text.rgb` with text = self.text  ->  `self.text.rgb` (a fresh expression; the original is not modified)."""
+    import copy
+
+    class T(ast.NodeTransformer):
+        def visit_Name(self, n):
+            if isinstance(n.ctx, ast.Load) and n.id in aliases:
+                return copy.deepcopy(aliases[n.id])
+            return n
+    return T().visit(copy.deepcopy(e))
